@@ -23,12 +23,14 @@
 package actor
 
 import (
+	"cmp"
 	"context"
 	"fmt"
 	"math/rand/v2"
 	"reflect"
 	"slices"
 	"sort"
+	"strings"
 	"sync/atomic"
 	"time"
 	"unsafe"
@@ -627,6 +629,11 @@ func (x *router) availableRoutees() ([]*PID, bool) {
 		// keep the hash ring in sync with the routee set
 		x.rebuildHashRing()
 	}
+	// Go map iteration order is random: give the routees a fixed order (by index,
+	// i.e. shorter names first, then lexicographically) so that round-robin cycles.
+	slices.SortFunc(routees, func(a, b *PID) int {
+		return cmp.Or(cmp.Compare(len(a.Name()), len(b.Name())), strings.Compare(a.Name(), b.Name()))
+	})
 	return routees, len(routees) > 0
 }
 
